@@ -164,6 +164,32 @@ def invalid_schema(d, k, kind):
     return Spec([("v", cand.VALUE_KINDS[kind])], pre, body, tags=[])
 
 
+def invalid_nonobject(d, kind):
+    """a schema that is not even an object (or boolean): SchemaError before anything else happens"""
+    from typing import List
+    from vf.harness import Scalar
+    T = {"scalar": Scalar, "arr_int": List[int], "arr_str": List[str]}[kind]
+
+    def pre(v):
+        return small(v, 2, 2)
+
+    def body(v):
+        cls = tp.CLS[d]
+        if d >= 6 and isinstance(v, bool):
+            return True, "boolean-schema"
+        try:
+            jsonschema.validate(Poison(), v, cls=cls)
+            return False, "accepted"
+        except SchemaError:
+            return True, "rejected"
+        except HarnessEscape:
+            raise
+        except Exception as e:
+            raise HarnessEscape(type(e).__name__)
+
+    return Spec([("v", T)], pre, body, tags=["rejected"])
+
+
 def conditions(tier, seed, active):
     quick = tier == "quick"
     out = tp.gen_conditions(__name__, "single", tier, seed, rate={"T1": 0.3, "T2": 0.5, "T3": 0.08}, pairs_quick=8, rest=not quick,
@@ -180,6 +206,9 @@ def conditions(tier, seed, active):
             c["params"] = dict(c["params"], variant="$schema")     # the class is chosen from $schema in every other condition
             c["id"] += "@$schema"
     for d in (3, 4, 6, 7):
+        for kind in ("scalar", "arr_int", "arr_str"):
+            out.append(dict(id="invalid-schema/non-object/%s/d%d" % (kind, d), module=__name__, factory="invalid_nonobject",
+                            params=dict(d=d, kind=kind), timeout=600, tags=["rejected"], witness=[]))
         for k in cand.keywords(d):
             kinds = cand.kinds_for(k)
             kinds = rng.sample(cand.BASE_KINDS, 2) if quick else rng.sample(kinds, min(5, len(kinds)))
